@@ -54,6 +54,9 @@ M = [
  ("c20_call_append_outside_lock", "C20", "fp.go", "\tcurrySelf.callM.Lock()\n\tif !currySelf.isDone.Get() {\n\t\tcurrySelf.args = append(currySelf.args, args...)", "\tif !currySelf.isDone.Get() {\n\t\tcurrySelf.args = append(currySelf.args, args...)\n\t}\n\tcurrySelf.callM.Lock()\n\tif !currySelf.isDone.Get() {"),
  ("c20_markdone_ignored", "C20", "fp.go", "\tif !currySelf.isDone.Get() {\n\t\tcurrySelf.args = append(currySelf.args, args...)\n\t\tcurrySelf.result", "\tif !currySelf.isDone.Get() || len(args) == 2 {\n\t\tcurrySelf.args = append(currySelf.args, args...)\n\t\tcurrySelf.result"),
  ("c20_regex_on_nonstring", "C20", "fp.go", "\tif Maybe.Just(value).IsNil() || reflect.TypeOf(value).Kind() != reflect.String {\n\t\treturn false\n\t}\n\n\tmatches, err := regexp.MatchString(patternSelf.pattern, (value).(string))", "\tif Maybe.Just(value).IsNil() {\n\t\treturn false\n\t}\n\n\tmatches, err := regexp.MatchString(patternSelf.pattern, fmt.Sprint(value))"),
+ ("c08_offer_rlock", "C08", "queue.go", "func (q *ConcurrentQueue[T]) Offer(val T) error {\n\tq.lock.Lock()\n\tdefer q.lock.Unlock()", "func (q *ConcurrentQueue[T]) Offer(val T) error {\n\tq.lock.RLock()\n\tdefer q.lock.RUnlock()"),
+ ("c08_pop_nolock", "C08", "queue.go", "func (q *ConcurrentStack[T]) Pop() (T, error) {\n\tq.lock.Lock()\n\tdefer q.lock.Unlock()\n", "func (q *ConcurrentStack[T]) Pop() (T, error) {\n"),
+ ("c08_take_unlock_early", "C08", "queue.go", "func (q *ConcurrentQueue[T]) Take() (T, error) {\n\tq.lock.Lock()\n\tdefer q.lock.Unlock()\n", "func (q *ConcurrentQueue[T]) Take() (T, error) {\n\tq.lock.Lock()\n\tq.lock.Unlock()\n"),
 ]
 
 
